@@ -11,6 +11,10 @@ From AF Require Import Lib.Bytes Lib.Path Lib.Ops Gen.Consts Model.MemFile Model
   Model.Cache Model.Stack Proofs.MemFsBasics Proofs.PathProof Proofs.MemFileProof.
 Local Open Scope Z_scope.
 
+(* the values of the switches (Gen/Consts.v, regenerated from the Go source) the proofs below depend on *)
+Lemma cache_copy_dir_mkdir_is_1 : cache_copy_dir_mkdir = 1. Proof. reflexivity. Qed.
+Lemma cache_remove_miss_base_only_is_1 : cache_remove_miss_base_only = 1. Proof. reflexivity. Qed.
+
 (* ------------------------------------------------------------------------------------------ *)
 (* Part 1: arbitrary inner filesystems                                                         *)
 (* ------------------------------------------------------------------------------------------ *)
@@ -166,6 +170,40 @@ Proof.
         right. exists b. now split.
 Qed.
 
+(* ---------------- CacheOnReadFs.copyToLayer ---------------- *)
+(* the base's Stat comes first; a directory is created in the layer with the base's permission bits
+   (nothing is copied, the base is not opened) ... *)
+Lemma cache_copy_dir sb sl name sb1 fi :
+  bstep sb (Stat name) = (sb1, RInfo fi) -> fi_dir fi = true ->
+  cache_copy_to_layer bstep lstep sb sl name =
+    match lstep sl (MkdirAll name (Z.land (fi_mode fi) 511)) with
+    | (sl1, ROk) => (sb1, sl1, None)
+    | (sl1, r) => (sb1, sl1, Some (err_of r))
+    end.
+Proof.
+  intros Hs Hd. unfold cache_copy_to_layer. rewrite cache_copy_dir_mkdir_is_1. cbn [Z.eqb Pos.eqb].
+  rewrite Hs, Hd. reflexivity.
+Qed.
+
+(* ... anything else (a regular file, or a Stat that fails) goes to Union's copyToLayer, on the base
+   state the Stat left *)
+Lemma cache_copy_not_dir sb sl name :
+  (forall fi, snd (bstep sb (Stat name)) = RInfo fi -> fi_dir fi = false) ->
+  cache_copy_to_layer bstep lstep sb sl name = copy_to_layer bstep lstep (fst (bstep sb (Stat name))) sl name.
+Proof.
+  intros Hd. unfold cache_copy_to_layer. rewrite cache_copy_dir_mkdir_is_1. cbn [Z.eqb Pos.eqb].
+  destruct (bstep sb (Stat name)) as [sb1 r]. cbn [fst snd] in *. destruct r; try reflexivity.
+  rewrite (Hd fi eq_refl). reflexivity.
+Qed.
+
+Lemma cache_copy_file sb sl name sb1 fi :
+  bstep sb (Stat name) = (sb1, RInfo fi) -> fi_dir fi = false ->
+  cache_copy_to_layer bstep lstep sb sl name = copy_to_layer bstep lstep sb1 sl name.
+Proof.
+  intros Hs Hd. rewrite cache_copy_not_dir; rewrite Hs; cbn [fst snd]; [reflexivity|].
+  intros fi0 Hq. inversion Hq; subst. exact Hd.
+Qed.
+
 (* ---------------- what Open does in each status (regular files) ---------------- *)
 Notation cstep := (cache_step bstep lstep dur).
 
@@ -185,7 +223,7 @@ Proof. intros Hs. cbn [cache_step]. rewrite Hs. reflexivity. Qed.
 Theorem open_stale now sb sl tbl p sb1 sl1 f :
   cache_status bstep lstep dur now sb sl p = (sb1, sl1, CStale, Some f, None) -> fi_dir f = false ->
   cstep now (sb, sl, tbl) (Open p) =
-    match copy_to_layer bstep lstep sb1 sl1 p with
+    match cache_copy_to_layer bstep lstep sb1 sl1 p with
     | (sb3, sl2, Some ce) => ((sb3, sl2, tbl), RErr ce)
     | (sb3, sl2, None) => open_layer lstep sb3 sl2 tbl (Open p)
     end.
@@ -198,7 +236,7 @@ Theorem open_miss now sb sl tbl p sb1 sl1 fi :
     match bstep sb1 (Stat p) with
     | (sb2, RInfo bfi) =>
       if fi_dir bfi then open_base bstep sb2 sl1 tbl (Open p)
-      else match copy_to_layer bstep lstep sb2 sl1 p with
+      else match cache_copy_to_layer bstep lstep sb2 sl1 p with
            | (sb3, sl2, Some ce) => ((sb3, sl2, tbl), RErr ce)
            | (sb3, sl2, None) => open_layer lstep sb3 sl2 tbl (Open p)
            end
@@ -267,9 +305,17 @@ Definition op_path (o : op) : str :=
   | _ => []
   end.
 
+(* Remove since the fix: on a miss only the base is called (the switch cache_remove_miss_base_only) *)
+Definition base_only_switch (o : op) : bool :=
+  match o with Remove _ => Z.eqb cache_remove_miss_base_only 1 | _ => false end.
+(* the one situation in which a mutator does not reach the layer although the base succeeded: Remove of a
+   name the layer is known not to hold *)
+Definition miss_base_only (o : op) (cs : cache_state) : bool :=
+  match o, cs with Remove _, CMiss => true | _, _ => false end.
+
 Lemma cache_step_both now sb sl tbl o :
   both_op o = true ->
-  cstep now (sb, sl, tbl) o = cache_both bstep lstep dur now sb sl tbl (op_path o) o (copies_first o).
+  cstep now (sb, sl, tbl) o = cache_both bstep lstep dur now sb sl tbl (op_path o) o (copies_first o) (base_only_switch o).
 Proof. destruct o; try discriminate; reflexivity. Qed.
 
 (* the call on the base, then (unless it failed) on the layer *)
@@ -292,27 +338,42 @@ Proof.
     cbn [res_err]; try (destruct e; reflexivity).
 Qed.
 
-(* miss / stale: Chtimes, Chmod, Chown, Rename copy the file into the layer first; Remove, RemoveAll do not *)
+(* miss / stale: Chtimes, Chmod, Chown, Rename copy the file into the layer first (CacheOnReadFs.copyToLayer);
+   RemoveAll does not; Remove does not either and, on a miss, calls the base only and returns its result *)
 Theorem mutator_miss_or_stale now sb sl tbl o sb1 sl1 cs fi :
   both_op o = true -> cs = CMiss \/ cs = CStale ->
   cache_status bstep lstep dur now sb sl (op_path o) = (sb1, sl1, cs, fi, None) ->
   cstep now (sb, sl, tbl) o =
-    if copies_first o then
-      match copy_to_layer bstep lstep sb1 sl1 (op_path o) with
+    if miss_base_only o cs then let '(sb2, r) := bstep sb1 o in ((sb2, sl1, tbl), r)
+    else if copies_first o then
+      match cache_copy_to_layer bstep lstep sb1 sl1 (op_path o) with
       | (sb2, sl2, Some ce) => ((sb2, sl2, tbl), RErr ce)
       | (sb2, sl2, None) => base_then_layer sb2 sl2 tbl o
       end
     else base_then_layer sb1 sl1 tbl o.
 Proof.
   intros Hb Hc Hs. rewrite (cache_step_both _ _ _ _ _ Hb). unfold cache_both, base_then_layer. rewrite Hs.
-  destruct (copies_first o).
-  - assert (Hm : match cs with CLocal | CHit => False | _ => True end) by (destruct Hc; subst; exact I).
-    destruct cs; try contradiction;
-      (destruct (copy_to_layer bstep lstep sb1 sl1 (op_path o)) as [[sb2 sl2] [ce|]]; [reflexivity|];
-       destruct (bstep sb2 o) as [sb3 r]; destruct r; try reflexivity; cbn [res_err]; try (destruct e; reflexivity)).
-  - destruct Hc; subst;
-      (destruct (bstep sb1 o) as [sb2 r]; destruct r; try reflexivity; cbn [res_err]; try (destruct e; reflexivity)).
+  assert (Hsw : base_only_switch o = match o with Remove _ => true | _ => false end).
+  { unfold base_only_switch. rewrite cache_remove_miss_base_only_is_1. destruct o; reflexivity. }
+  rewrite Hsw. clear Hsw.
+  destruct o; try discriminate Hb; cbn [copies_first miss_base_only op_path].
+  all: destruct Hc; subst cs;
+    first
+    [ (* Chtimes, Chmod, Chown, Rename: copy first *)
+      match goal with |- context [cache_copy_to_layer bstep lstep ?a ?b ?q] =>
+         destruct (cache_copy_to_layer bstep lstep a b q) as [[sb2 sl2] [ce|]] end; [reflexivity|];
+      match goal with |- context [bstep ?a ?oo] => destruct (bstep a oo) as [sb3 r] end;
+      destruct r; try reflexivity; cbn [res_err]; try (destruct e; reflexivity)
+    | (* Remove, RemoveAll *)
+      match goal with |- context [bstep ?a ?oo] => destruct (bstep a oo) as [sb2 r] end;
+      destruct r; try reflexivity; cbn [res_err]; try (destruct e; reflexivity) ].
 Qed.
+
+(* Remove of a name the layer does not hold: the base's Remove and nothing else *)
+Corollary remove_miss now sb sl tbl p sb1 sl1 fi :
+  cache_status bstep lstep dur now sb sl p = (sb1, sl1, CMiss, fi, None) ->
+  cstep now (sb, sl, tbl) (Remove p) = let '(sb2, r) := bstep sb1 (Remove p) in ((sb2, sl1, tbl), r).
+Proof. intros Hs. exact (mutator_miss_or_stale now sb sl tbl (Remove p) sb1 sl1 CMiss fi eq_refl (or_introl eq_refl) Hs). Qed.
 
 (* local (the layer has it, the copy expired and the base has lost it): only the layer *)
 Theorem mutator_local now sb sl tbl o sb1 sl1 fi :
@@ -619,9 +680,11 @@ Proof.
   - unfold bump, lookup. cbn [mdata]. rewrite mdata_upd. exact Hl.
 Qed.
 
-(* the directory preparation of copyFile: Exists(layer, dir), MkdirAll(dir) when missing *)
+(* the directory preparation of copyFile: Exists(layer, dir), MkdirAll(dir) when missing;
+   dir = copy_dir name (Model/Union.v): filepath.Dir of the name, or of the cleaned name when the switch
+   copyfile_cleans_name is 1 — nothing below depends on which *)
 Definition dir_prep (sl : mst) (name : str) : mst * option err :=
-  let dir := path_dir name in
+  let dir := copy_dir name in
   let '(sl0, ex) := l_exists m_step sl dir in
   match ex with
   | inr e => (sl0, Some e)
@@ -689,8 +752,8 @@ Lemma copy_file_prep sb sl name bh :
   | (sl1, None) => copy_body sb sl1 name bh
   end.
 Proof.
-  unfold copy_file, dir_prep, copy_body. destruct (l_exists m_step sl (path_dir name)) as [sl0 [[|]|e]]; try reflexivity.
-  all: destruct (m_step sl0 (MkdirAll (path_dir name) 511)) as [s r]; destruct r; reflexivity.
+  unfold copy_file, dir_prep, copy_body. destruct (l_exists m_step sl (copy_dir name)) as [sl0 [[|]|e]]; try reflexivity.
+  all: destruct (m_step sl0 (MkdirAll (copy_dir name) 511)) as [s r]; destruct r; reflexivity.
 Qed.
 
 (* after a Create that behaved, the copy cannot fail and leaves exactly the base's bytes and mtime *)
@@ -762,6 +825,47 @@ Proof.
     intros Hc. inversion Hc. }
   destruct (copy_to_layer_correct sb sl name fb nb Hl Hn Hd Hp (Hr Hp)) as [sb2 [sl2 [fl [nl [Heq H]]]]].
   rewrite Heq in Hc. inversion Hc; subst. exists fl, nl. exact H.
+Qed.
+
+(* --- CacheOnReadFs.copyToLayer (Model/Cache.v cache_copy_to_layer) on a regular base file: the base's
+   Stat (which changes nothing one can observe: the clock tick only) and then Union's copyToLayer --- *)
+Lemma mstep_stat sb name fb nb :
+  lookup sb (normalize_path name) = Some fb -> get_node sb fb = Some nb ->
+  m_step sb (Stat name) = (bump sb, RInfo (finfo_of nb)).
+Proof. intros Hl Hn. rewrite m_step_bump. cbn [m_step_raw]. unfold m_stat. rewrite Hl, Hn. reflexivity. Qed.
+
+Lemma cache_copy_regular sb sl name fb nb :
+  lookup sb (normalize_path name) = Some fb -> get_node sb fb = Some nb -> ndir nb = false ->
+  cache_copy_to_layer m_step m_step sb sl name = copy_to_layer m_step m_step (bump sb) sl name /\
+  fs_view (bump sb) = fs_view sb.
+Proof.
+  intros Hl Hn Hd. split; [|reflexivity].
+  apply (cache_copy_file m_step m_step sb sl name (bump sb) (finfo_of nb) (mstep_stat sb name fb nb Hl Hn)).
+  exact Hd.
+Qed.
+
+(* C10, first read, as the cache performs it (Open / Chtimes / Chmod / Chown / Rename on a miss or a stale
+   copy call cache_copy_to_layer) *)
+Theorem first_read_cache sb sl name fb nb sb' sl' :
+  lookup sb (normalize_path name) = Some fb -> get_node sb fb = Some nb -> ndir nb = false ->
+  layer_ready sl name ->
+  cache_copy_to_layer m_step m_step sb sl name = (sb', sl', None) ->
+  exists fl nl, lookup sl' (normalize_path name) = Some fl /\ get_node sl' fl = Some nl /\
+    ndir nl = false /\ ndata nl = ndata nb /\ nmtime nl = nmtime nb /\ fs_view sb' = fs_view sb.
+Proof.
+  intros Hl Hn Hd Hr Hc. destruct (cache_copy_regular sb sl name fb nb Hl Hn Hd) as [He Hv]. rewrite He in Hc.
+  exact (first_read (bump sb) sl name fb nb sb' sl' Hl Hn Hd Hr Hc).
+Qed.
+
+Theorem cache_copy_correct sb sl name fb nb :
+  lookup sb (normalize_path name) = Some fb -> get_node sb fb = Some nb -> ndir nb = false ->
+  snd (dir_prep sl name) = None -> CreateOK (fst (dir_prep sl name)) name ->
+  exists sb' sl' fl nl, cache_copy_to_layer m_step m_step sb sl name = (sb', sl', None) /\
+    lookup sl' (normalize_path name) = Some fl /\ get_node sl' fl = Some nl /\
+    ndir nl = false /\ ndata nl = ndata nb /\ nmtime nl = nmtime nb /\ fs_view sb' = fs_view sb.
+Proof.
+  intros Hl Hn Hd Hp Hc. destruct (cache_copy_regular sb sl name fb nb Hl Hn Hd) as [He Hv]. rewrite He.
+  exact (copy_to_layer_correct (bump sb) sl name fb nb Hl Hn Hd Hp Hc).
 Qed.
 
 (* --- the sane-state hypothesis holds in the two shapes a cache is in --- *)
